@@ -17,7 +17,9 @@ use verif_harness::*;
 type Map = BTreeMap<Vec<u8>, Vec<u8>>;
 struct Failure { kind: &'static str, detail: String }
 
-struct ChildRun { second: Option<(String, String)>, ids: Vec<u64>, results: Vec<(String, u64)>, dropped: bool, log: Vec<(String, u64, i64)>, files: Vec<String>, status: Option<i32> }
+struct ChildRun { second: Option<(String, String)>, ids: Vec<u64>, results: Vec<(String, u64)>, dropped: bool, log: Vec<(String, u64, i64)>, files: Vec<String>,
+    /// (number of journal system calls before it, "create:<file>" | "dirsync")
+    dir_events: Vec<(usize, String)>, status: Option<i32> }
 
 fn run_child(dir: &Path, seed: u64, rot: bool, env: &[(&str, String)]) -> ChildRun {
     let _ = std::fs::remove_dir_all(dir);
@@ -51,12 +53,16 @@ fn run_child(dir: &Path, seed: u64, rot: bool, env: &[(&str, String)]) -> ChildR
     let mut lg = vec![];
     let mut files: Vec<String> = vec![];
     let mut fdname: BTreeMap<i64, String> = BTreeMap::new();
+    let mut dir_events: Vec<(usize, String)> = vec![];
     if let Ok(t) = std::fs::read_to_string(&log) {
         for l in t.lines() {
             let p: Vec<&str> = l.split(' ').collect();
             if p.len() >= 4 {
                 let fd: i64 = p.get(4).and_then(|x| x.parse().ok()).unwrap_or(-1);
                 if let Some(name) = p[1].strip_prefix("open:") { fdname.insert(fd, name.to_string()); continue; }
+                // directory-level events (not system calls of a journal file): position = number of journal calls so far
+                if let Some(name) = p[1].strip_prefix("create:") { dir_events.push((lg.len(), format!("create:{name}"))); continue; }
+                if p[1] == "dirsync" { dir_events.push((lg.len(), "dirsync".to_string())); continue; }
                 lg.push((p[1].to_string(), p[2].parse().unwrap_or(0), p[3].parse().unwrap_or(0)));
                 files.push(fdname.get(&fd).cloned().unwrap_or_default());
             }
@@ -64,7 +70,7 @@ fn run_child(dir: &Path, seed: u64, rot: bool, env: &[(&str, String)]) -> ChildR
     }
     let _ = std::fs::remove_file(&arm);
     let _ = std::fs::remove_file(&log);
-    ChildRun { second, ids, results, dropped, log: lg, files, status: out.status.code() }
+    ChildRun { second, ids, results, dropped, log: lg, files, dir_events, status: out.status.code() }
 }
 
 fn dump(dir: &Path, nks: usize) -> Result<Vec<Map>, String> {
@@ -311,6 +317,16 @@ fn run_case(seed: u64, mode: &str, thorough: bool, lean: &mut Lean, hist: &mut B
                     "write" => *written.entry(file.clone()).or_insert(0) += *res as u64,
                     "fsync" | "fdatasync" => { let wv = written.get(file).copied().unwrap_or(0); synced.insert(file.clone(), wv); }
                     _ => {}
+                }
+            }
+            // power loss: a journal file created during the run whose directory was not fsynced afterwards has no
+            // durable directory entry - it is gone as a whole
+            for (i, (_, ev)) in run.dir_events.iter().enumerate() {
+                if let Some(name) = ev.strip_prefix("create:") {
+                    if !run.dir_events[i + 1..].iter().any(|(_, e)| e == "dirsync") {
+                        let _ = std::fs::remove_file(dir.join(name));
+                        *hist.entry("power-loss-journal-file-without-directory-entry".into()).or_insert(0) += 1;
+                    }
                 }
             }
             // power loss: unsynced journal bytes are gone (the active file keeps its preallocated length)
